@@ -1032,19 +1032,31 @@ func (t *translator) forStmt(x *ast.ForStmt, tail []ast.Stmt, c tctx, fall strin
 // ---------- functions ----------
 
 type transTarget struct {
-	file    string        // path below the repository root
-	fn      string        // "Recv.name" or "name"
-	closure bool          // the function returns a func literal: translate that, the outer parameters first
-	lean    string        // name of the generated definition
-	params  map[string]ty // parameter types by name (wins over typeMap)
-	lit     int           // n > 0: translate the n-th func literal inside the function (source order), its parameters only
-	after   string        // translate the body AFTER the first top-level statement whose source starts with this …
-	extra   [][2]string   // … with these additional parameters (name, printed Go type) for the locals it leaves behind
-	skip    []string      // parameters that are dropped (not used by the translated part)
+	file    string             // path below the repository root
+	fn      string             // "Recv.name" or "name"
+	closure bool               // the function returns a func literal: translate that, the outer parameters first
+	lean    string             // name of the generated definition
+	params  map[string]ty      // parameter types by name (wins over typeMap)
+	lit     int                // n > 0: translate the n-th func literal inside the function (source order), its parameters only
+	after   string             // translate the body AFTER the first top-level statement whose source starts with this …
+	extra   [][2]string        // … with these additional parameters (name, printed Go type) for the locals it leaves behind
+	skip    []string           // parameters that are dropped (not used by the translated part)
+	calls   map[string]callVal // callees that mean something else in this function's package (wins over the table)
 }
 
 // translateFunc returns the Lean text of one definition (comment with the Go source + def) and the problems.
 func translateFunc(f *File, fd *ast.FuncDecl, tg transTarget, tab *transTables) (string, []string) {
+	if len(tg.calls) > 0 {
+		local := *tab
+		local.calls = map[string]callVal{}
+		for k, v := range tab.calls {
+			local.calls[k] = v
+		}
+		for k, v := range tg.calls {
+			local.calls[k] = v
+		}
+		tab = &local
+	}
 	t := &translator{f: f, tab: tab, env: map[string]ty{}}
 	var binders []string
 	addParams := func(fl *ast.FieldList) {
